@@ -1,7 +1,7 @@
 From Coq Require Extraction.
 From Coq Require Import ExtrOcamlBasic.
 From OlaBase Require Import Bytes.
-From C20 Require Import Libc Model.
+From C20 Require Import Libc Model Ipv6.
 Extraction Language OCaml.
 Extraction "model.ml" io_witness N.div_eucl N.add N.mul N.pow
   cstr strtoull strtoll strtoul strtol atoi end_offset is_hex_char
@@ -14,4 +14,5 @@ Extraction "model.ml" io_witness N.div_eucl N.add N.mul N.pow
   uid_from_string uid_to_string mac_from_string mac_to_string
   dmx_set_from_string dmx_to_string dmx_text_in_finding
   ipv4_from_string ipv4_to_string sockaddr_from_string sockaddr_to_string
-  cid_from_string cid_to_string nil_uuid stream_seq.
+  cid_from_string cid_to_string nil_uuid stream_seq
+  ipv6_to_text ipv6_of_text ipv6_from_string v4_form words_of_bytes.
